@@ -129,7 +129,7 @@ let run (line : string) : string =
       | "fib" -> string_of_z (mp_fib_ui (nn 1))
       | "fib2" -> pair (mp_fib2_ui (nn 1))
       | "luc" -> string_of_z (mp_lucnum_ui (nn 1))
-      | "luc2" -> show_res pair (mp_lucnum2_ui (nn 1))
+      | "luc2" -> pair (mp_lucnum2_ui (nn 1))
       | "fac" -> string_of_z (mp_fac_ui (nn 1))
       | "bin" -> string_of_z (mp_bin_ui (zz 1) (nn 2))
       | "ppow" -> show_res b01 (mp_perfect_power_p mr_det (zz 1))
